@@ -168,17 +168,41 @@ type decodeLoop struct {
 	fd     *ast.FuncDecl
 	loop   *ast.ForStmt
 	call   *ast.CallExpr // the nextField/Next call
+	via    string        // the callee: the HPACK decoder itself or a one-field wrapper of it
 	cursor string
 	role   string
 }
 
 func (p *Prog) decodeLoops() []decodeLoop {
 	var out []decodeLoop
+	// a function that calls the field decoder once, outside any loop, and hands
+	// back the rest is a decoder too: its callers' loops are the decode loops
+	decoders := map[string]bool{"(*HPACK).nextField": true, "(*HPACK).Next": true}
 	for _, f := range p.Files {
 		pm := p.parentMaps()[f]
 		inspectCalls(f, func(c *ast.CallExpr) {
 			name := p.calleeOf(c)
 			if name != "(*HPACK).nextField" && name != "(*HPACK).Next" {
+				return
+			}
+			for cur := pm[c]; cur != nil; cur = pm[cur] {
+				if _, ok := cur.(*ast.ForStmt); ok {
+					return
+				}
+				if fd, ok := cur.(*ast.FuncDecl); ok {
+					if fd.Type.Results != nil && len(fd.Type.Results.List) >= 1 && p.text(fd.Type.Results.List[0].Type) == "[]byte" {
+						decoders[enclosingFunc(pm, c)] = true
+					}
+					return
+				}
+			}
+		})
+	}
+	for _, f := range p.Files {
+		pm := p.parentMaps()[f]
+		inspectCalls(f, func(c *ast.CallExpr) {
+			name := p.calleeOf(c)
+			if !decoders[name] {
 				return
 			}
 			var loop *ast.ForStmt
@@ -195,7 +219,7 @@ func (p *Prog) decodeLoops() []decodeLoop {
 				return
 			}
 			fn := enclosingFunc(pm, c)
-			dl := decodeLoop{fn: fn, fd: p.decl(fn), loop: loop, call: c}
+			dl := decodeLoop{fn: fn, fd: p.decl(fn), loop: loop, call: c, via: name}
 			if len(c.Args) > 0 {
 				dl.cursor = p.text(c.Args[len(c.Args)-1])
 			}
@@ -219,6 +243,39 @@ func ruleHdrCarryover(p *Prog, r *Out) {
 	for _, dl := range loops {
 		r.fn(dl.fn)
 		key := dl.fn + " decode loop"
+		if dl.via == "(*Conn).nextField" {
+			// the client keeps the block's state on the connection and all of
+			// its decode loops go through one wrapper (client-block-state)
+			okBlock, why := p.clientBlockOK()
+			cursorOK := false
+			if dl.fn == "(*Conn).skipFields" {
+				cursorOK = true // a parameter: its callers are readHeader (cursor) and skipHeaderBlock (open)
+				for _, f := range p.Files {
+					inspectCalls(f, func(c *ast.CallExpr) {
+						if p.calleeOf(c) == "(*Conn).skipFields" && len(c.Args) == 3 && p.text(c.Args[1]) != "b" {
+							cursorOK = false
+						}
+					})
+				}
+			} else {
+				for _, s := range dl.fd.Body.List {
+					if squash(p.text(s)) == dl.cursor+":=c.block.open(fr)" {
+						cursorOK = true
+					}
+				}
+			}
+			counted := false
+			for _, s := range dl.loop.Body.List {
+				if squash(p.text(s)) == "c.block.fields++" && s.Pos() > dl.call.Pos() {
+					counted = true
+				}
+			}
+			msg := strings.Join(why, "; ")
+			r.check(okBlock && cursorOK, key+" carries a cut field over", p.pos(dl.loop.Pos()), "cut field kept on Conn.block by nextField and prepended by open()", fmt.Sprintf("%s no longer decodes from the connection's carried bytes through the wrapper that keeps a cut field (cursor from open(): %v; %s)", dl.fn, cursorOK, msg))
+			r.check(okBlock && counted, key+" block position survives frames", p.pos(dl.call.Pos()), "Conn.block.fields: reset by open() on HEADERS, ++ per field", fmt.Sprintf("%s no longer counts every decoded field on the connection's block state (counted: %v; %s)", dl.fn, counted, msg))
+			r.check(okBlock, key+" passes block position", p.pos(dl.call.Pos()), "decoder told whether this is the start of a block", fmt.Sprintf("%s no longer tells the decoder where in the block it is (%s)", dl.fn, msg))
+			continue
+		}
 		if dl.fn == "(*serverConn).skipFields" {
 			// the draining loop hands the cut field and the position back to its
 			// callers instead of keeping them itself: the loop is judged by
@@ -422,8 +479,32 @@ func ruleNoStreamErrInLoop(p *Prog, r *Out) {
 					fmt.Sprintf("%s rejects the request (%s) through rejectBlock, but that no longer decodes the rest of the fragment (handed the loop's cursor: %v; %s): the shared HPACK dynamic table misses what followed the offending field", dl.fn, labelOf(c.Args[3]), cursor, strings.Join(why, "; ")))
 				return true
 			}
+			if c, ok := e.(*ast.CallExpr); ok && p.calleeOf(c) == "(*Conn).skipFields" && len(c.Args) == 3 {
+				drains, why := p.clientBlockOK()
+				cursor := p.text(c.Args[1]) == dl.cursor
+				r.check(drains && cursor, dl.fn+" return#"+labelOf(c.Args[2]), p.pos(rs.Pos()), "the rest of the fragment is decoded first (skipFields)",
+					fmt.Sprintf("%s turns the response away (%s) through skipFields, but that no longer decodes the rest of the fragment (handed the loop's cursor: %v; %s): the shared HPACK dynamic table misses what followed the offending field", dl.fn, labelOf(c.Args[2]), cursor, strings.Join(why, "; ")))
+				return true
+			}
 			class, _, isCall := p.errorCall(e)
 			label := labelOf(e)
+			// `return err` right after the decode step: the class is whatever the
+			// decoder (or its wrapper) returns
+			if id, ok := e.(*ast.Ident); ok && !isCall && id.Name == "err" && dl.via != "(*HPACK).nextField" && dl.via != "(*HPACK).Next" {
+				if f := p.ssaFunc(dl.via); f != nil {
+					cls := p.returnErrClasses(f, 4)
+					only := len(cls) > 0
+					for _, c := range cls {
+						if c != "GoAway" && c != "Nil" {
+							only = false
+						}
+					}
+					if only {
+						r.check(true, dl.fn+" return#"+label, p.pos(rs.Pos()), "connection-terminating return ("+dl.via+" only fails with a connection error)", "")
+						return true
+					}
+				}
+			}
 			if !isCall {
 				class = "Foreign"
 				if id, ok := e.(*ast.Ident); ok {
